@@ -40,6 +40,7 @@ type Val struct {
 	S       string
 	Sub     []Val
 	Untyped bool // untyped integer constant from a spec
+	Math    bool // int mode: result of unbounded spec arithmetic (may lie outside the range of T)
 }
 
 func (v Val) IsZeroVal() bool { return v.T == nil && v.S == "" && v.Sub == nil }
